@@ -16,6 +16,22 @@ from .. import asmtext as A
 
 PROP = "C09"
 PNAMES = "abcdefghi"
+# formal parameter names are bound names: the meaning of a macro does not depend on them.  Schemes:
+# 0 unrelated names; 1 every later name is a prefix of the earlier ones; 2 every earlier name is a prefix of
+# the later ones; 3 names that extend the directive and data words used in bodies (db, dw, dc32, ...)
+CUR = {"scheme": 0, "np": 0}
+EXT = ["dbq", "dwq", "dc8q", "dc16q", "dc32q", "dlq", "asciiq", "dqq", "dc64q"]
+
+
+def pname(i):
+    sch, n = CUR["scheme"], CUR["np"]
+    if sch == 1:
+        return "v" + "x" * (n - i)
+    if sch == 2:
+        return "w" + "y" * (i - 1)
+    if sch == 3:
+        return EXT[i - 1]
+    return "p" + PNAMES[i - 1]
 
 
 def ritem(it, params=False):
@@ -23,7 +39,7 @@ def ritem(it, params=False):
     if k == "ref":
         return it["n"]
     if k == "param":
-        return "p" + PNAMES[it["i"] - 1]
+        return pname(it["i"])
     if k == "sum":
         return "%s + %s" % (ritem(it["a"]), ritem(it["b"]))
     return A.render_item(it)
@@ -36,11 +52,13 @@ def rstmt(s, out, variant):
     elif k == "equ":
         out.append("%s equ %s" % (s["n"], ritem(s["v"])))
     elif k == "macro":
-        ps = ", ".join("p" + PNAMES[i] for i in range(s["np"]))
+        CUR["scheme"], CUR["np"] = (variant // 2) % 4, s["np"]
+        ps = ", ".join(pname(i + 1) for i in range(s["np"]))
         out.append(".macro %s%s" % (s["n"], "(%s)" % ps if s["np"] else ""))
         for b in s["body"]:
             rstmt(b, out, variant)
         out.append(".endm")
+        CUR["scheme"] = 0
     elif k == "invoke":
         out.append("%s%s" % (s["n"], "(%s)" % ", ".join(ritem(a) for a in s["args"]) if s["args"] else ""))
     elif k == "repeat":
